@@ -528,6 +528,7 @@ theorem good_rwFlush (env : Env) (s : St) (hg : Good s) :
 theorem good_step (env : Env) (s : St) (a : Act) (hg : Good s) : Good (step env s a) := by
   cases a with
   | add k v => exact ⟨⟨hg.inv.snap, hg.inv.tr, hg.inv.out⟩, hg.get, hg.head⟩
+  | setFirst k v => exact ⟨⟨hg.inv.snap, hg.inv.tr, hg.inv.out⟩, hg.get, hg.head⟩
   | status c => exact good_writeHeader s c hg
   | write p => exact good_rwWrite env s p hg
   | flush => exact (good_rwFlush env s hg).1
@@ -535,6 +536,7 @@ theorem good_step (env : Env) (s : St) (a : Act) (hg : Good s) : Good (step env 
 theorem step_isHead (env : Env) (s : St) (a : Act) : (step env s a).isHead = s.isHead := by
   cases a with
   | add k v => rfl
+  | setFirst k v => rfl
   | status c => exact (keeps_writeHeader s c).1.isHead
   | write p =>
     simp only [step, rwWrite]
